@@ -64,6 +64,36 @@ def parseLiveCert (cert : String) : Option (ClientCert Nat) :=
   else if cert == "x" then some .stranger
   else cert.toNat?.map .peer
 
+/-! ### `c20.chain`: a client presenting a certificate chain -/
+
+/-- `0|1|2` = test certificate i as on file, `r<i>` = re-issued for key i, `l<i>` = leaf for a fresh
+key minted with key i -/
+def parseTestCert (t : String) : Option TestCert :=
+  if t.startsWith "r" then (t.drop 1).toString.toNat?.map .reissued
+  else if t.startsWith "l" then (t.drop 1).toString.toNat?.map .leaf
+  else t.toNat?.map .onFile
+
+def parseChain (s : String) : Option (List TestCert) :=
+  if s == "-" then some [] else (s.splitOn ",").mapM parseTestCert
+
+/-- `-` (no key) | `k<i>` (key of test certificate i) | `kl<i>` (the fresh key of `l<i>`) -/
+def parseKey (s : String) : Option (Option Nat) :=
+  if s == "-" then some none
+  else if s.startsWith "kl" then (s.drop 2).toString.toNat?.map (fun i => some (100 + i))
+  else if s.startsWith "k" then (s.drop 1).toString.toNat?.map some else none
+
+def isStepHandler (h : String) : Bool := h.startsWith "query::step::"
+
+def showFrom : Option Nat → String
+  | none => "none"
+  | some i => toString i
+
+/-- like `showLive`, plus the peer the step data was attributed to -/
+def showChain (r : ChainResp Nat) : String :=
+  match r.resp with
+  | .resp (.handled h) => if isStepHandler h then s!"ok from={showFrom r.attributed}" else "ok"
+  | other => showLive other
+
 def handle (toks : List String) : Option String :=
   match toks with
   | ["c20.live", server, proto, bind, _group, m, target, cert, hdr, _body] => some <| (do
@@ -74,6 +104,33 @@ def handle (toks : List String) : Option String :=
       let c : Client Nat := { tls := tls, cert := (← parseLiveCert cert), header := (← parseLiveHeader server hdr) }
       let f : Flavor := if server == "mpc" then .helper else .shard
       pure (showLive (serve f routes arm c (segments target) (← parseMethod m)))).getD "bad-request"
+  | ["c20.chain", server, proto, bind, _group, m, target, key, chain, hdr, _body] => some <| (do
+      let routes ← tableOf server
+      let tls ← if proto == "tls" then some true else if proto == "plain" then some false else none
+      let pre ← if bind == "pre" then some true else if bind == "self" then some false else none
+      let arm ← armFor (!tls) pre
+      let f : Flavor := if server == "mpc" then .helper else .shard
+      let header ← parseLiveHeader server hdr
+      let k ← parseKey key
+      let ch ← parseChain chain
+      let meth ← parseMethod m
+      if tls then
+        match k, ch with
+        | none, [] =>
+          pure (showChain (serveChain f routes arm (identifyCert (testPeers f)) TestCert.key (testAnchored f) 0 [] header (segments target) meth))
+        | some kk, c :: t =>
+          pure (showChain (serveChain f routes arm (identifyCert (testPeers f)) TestCert.key (testAnchored f) kk (c :: t) header (segments target) meth))
+        | _, _ => none
+      else
+        -- plain HTTP: no certificate exists; the identity is the header's
+        match k, ch with
+        | none, [] =>
+          let r := serve f routes arm { tls := false, cert := .none, header := header } (segments target) meth
+          let id : Option Nat := match deriveIdentity arm { cert := (none : Option Nat), header := header } with
+            | .ext i => i
+            | .rejected => none
+          pure (showChain ⟨r, match r with | .resp (.handled _) => id | _ => none⟩)
+        | _, _ => none).getD "bad-request"
   | ["c20.req", server, _group, m, target, ident, _body] => some <| (do
       let routes ← tableOf server
       let r : Req := { path := segments target, method := (← parseMethod m),
@@ -139,6 +196,61 @@ def oracle (toks : List String) (impl : String) : Option String :=
           else
             (if impl == "401" || impl == "other:400" then "holds"
              else s!"fails {arm}: malformed identity header {v} accepted on {target} ({impl})")
+  | ["c20.chain", server, proto, bind, group, _m, target, key, chain, hdr, _body] => some <|
+      let protected_ := group == "h2h" || group == "s2s"
+      let arm := s!"{proto}/{bind}-bound"
+      let toks : List String := if chain == "-" then [] else chain.splitOn ","
+      -- the peer the step data was attributed to, if the answer names one
+      let from_ : Option String := if impl.startsWith "ok from=" then some (impl.drop 8).toString else none
+      if proto == "tls" then
+        -- spec: the only certificate the caller is authenticated for is the FIRST one, and only if it holds
+        -- its key; it is a peer iff that certificate is byte for byte the one on file (0 or 1)
+        let head := toks.headD "-"
+        let headKey : String := if head.startsWith "r" then (head.drop 1).toString else head
+        let possession := head != "-" && key == "k" ++ headKey
+        let auth : Option String := if possession && (head == "0" || head == "1") then some head else none
+        match from_ with
+        | some j =>
+          if auth == some j then "holds"
+          else s!"fails {arm}: {target} processed as coming from peer {j}, but the caller (key {key}, chain {chain}) authenticated " ++
+               (match auth with | some a => s!"as peer {a}" | none => "as nobody: its end-entity certificate is not on file / not its own") ++
+               s!" (identity header {hdr})"
+        | none =>
+          if !possession && head != "-" then
+            (if impl == "conn-err" || impl == "401" then "holds"
+             else s!"fails {arm}: {target} answered {impl} to a caller presenting certificate {head} without holding its key ({key})")
+          else match auth with
+          | none =>
+            if protected_ then
+              (if impl == "401" || impl == "conn-err" then "holds"
+               else s!"fails {arm}: {group} route {target} answered {impl} to a caller whose authenticated certificate ({head}) is on file for no peer (chain {chain}, header {hdr})")
+            else
+              (if impl == "401" then s!"fails {arm}: open route {target} requires a peer identity"
+               else if impl == "other:400" && hdr != "none" then s!"fails {arm}: identity header {hdr} has an effect under TLS ({impl})"
+               else "holds")
+          | some a =>
+            (if impl == "401" then s!"fails {arm}: peer {a} (own certificate first, chain {chain}) refused on {target}"
+             else if impl == "conn-err" then s!"fails {arm}: peer certificate {a} with its key not accepted (chain {chain})"
+             else if impl == "other:400" && hdr != "none" then s!"fails {arm}: identity header {hdr} has an effect under TLS ({impl})"
+             else if impl == "ok from=none" then s!"fails {arm}: step data of peer {a} attributed to nobody"
+             else "holds")
+      else
+        -- plain HTTP (test-only mode): the identity is what the header of the server's flavor says
+        let ownPrefix := if server == "mpc" then "h=" else "s="
+        let ownHdr : Option String := if hdr.startsWith ownPrefix then some (hdr.drop 2).toString else none
+        let claimed : Option String := match ownHdr with
+          | some v => if validIdentString server v then
+                        some (if server == "mpc" then (if v == "A" then "0" else if v == "B" then "1" else "2")
+                              else toString (((if v.startsWith "+" then (v.drop 1).toString else v).toNat?).getD 0))
+                      else none
+          | none => none
+        match from_ with
+        | some j => if claimed == some j then "holds" else s!"fails {arm}: {target} processed as coming from {j} but the header says {hdr}"
+        | none =>
+          if protected_ && claimed.isNone then
+            (if impl == "401" || impl == "other:400" then "holds" else s!"fails {arm}: {group} route {target} answered {impl} without a valid identity header ({hdr})")
+          else if impl == "401" then s!"fails {arm}: {target} refused although the header says {hdr}"
+          else "holds"
   | ["c20.req", server, group, _m, _target, ident, _body] => some <|
       let hasHelper := ident == "helper" || ident == "both"
       let hasShard := ident == "shard" || ident == "both"
